@@ -65,6 +65,9 @@ def register(cat):
     def run_new_coo(eng, ops, st):
         import scipy.sparse
 
+        if st.get("triplets"):
+            t = st["triplets"]
+            return scipy.sparse.coo_matrix((np.array(t["data"], dtype=float), (np.array(t["row"], dtype=np.int32), np.array(t["col"], dtype=np.int32))), shape=tuple(t["shape"]))
         return scipy.sparse.coo_matrix(np.array(dec(st["data"])))
 
     op("new_coo", None, lambda c, r: None, run_new_coo, weight=0.0)
